@@ -94,6 +94,66 @@ func checkC17(c *Ctx, r *Report) {
 	}
 	r1.onlyCallers("call recordObservationUnlocked", []string{"(*" + oaP + ".Manager).recordObservationUnlocked"}, c.FnsOfPkg(oaP), "(*"+oaP+".Manager).maybeRecordObservation")
 
+	// the transport of the report is the transport of the local address: same number of components and the same
+	// protocol code at EVERY position, the IP family included
+	if f := r1.need(oaP + ".hasConsistentTransport"); f != nil {
+		pa, pb := f.Params[0], f.Params[1]
+		isP := func(p *ssa.Parameter) func(ssa.Value) bool {
+			return func(v ssa.Value) bool { return strip2(v) == ssa.Value(p) || isParamCellLoad(c, v, p) }
+		}
+		var trueRets []ssa.Instruction
+		for _, ret := range returnsOf(f) {
+			if b, isC := constBool(retVal(ret, 0)); !isC || b {
+				trueRets = append(trueRets, ret)
+			}
+		}
+		// delegated to slices.EqualFunc(a, b, sameCode): whole slices, element-wise
+		delegated := false
+		for _, ret := range trueRets {
+			if call, ok := strip2(retVal(ret.(*ssa.Return), 0)).(*ssa.Call); ok && strings.HasPrefix(calleeKey(call), "slices.EqualFunc") || ok && strings.HasPrefix(calleeKey(call), "slices.Equal") {
+				a := call.Call.Args
+				if len(a) >= 2 && ((isP(pa)(a[0]) && isP(pb)(a[1])) || (isP(pb)(a[0]) && isP(pa)(a[1]))) {
+					delegated = true
+				}
+			}
+		}
+		if delegated {
+			r1.OK("hasConsistentTransport: compares the two addresses component by component over their whole length", f.Pos(), 1, "slices.EqualFunc over both parameters")
+		} else {
+			lenOfP := func(p *ssa.Parameter) func(ssa.Value) bool {
+				return func(v ssa.Value) bool {
+					call, ok := v.(*ssa.Call)
+					return ok && calleeKey(call) == "builtin.len" && isP(p)(call.Call.Args[0])
+				}
+			}
+			// true only past len(a) == len(b)
+			r1.guard(f, "return true", trueRets, "len(a) == len(b)", anyEdge(eqEdge(lenOfP(pa), lenOfP(pb), true)), nil)
+			// the comparison loop indexes the parameters themselves (not a tail of them) with the same index
+			okIdx := false
+			badSlice := ""
+			allInstrs(f, func(in ssa.Instruction) {
+				if sl, ok := in.(*ssa.Slice); ok && (isP(pa)(sl.X) || isP(pb)(sl.X)) && (sl.Low != nil || sl.High != nil) {
+					badSlice = c.Pos(instrPos(in))
+				}
+				if ia, ok := in.(*ssa.IndexAddr); ok && (isP(pa)(ia.X) || isP(pb)(ia.X)) {
+					okIdx = true
+				}
+				if ix, ok := in.(*ssa.Index); ok && (isP(pa)(ix.X) || isP(pb)(ix.X)) {
+					okIdx = true
+				}
+			})
+			r1.Check(okIdx && badSlice == "", "hasConsistentTransport: compares the two addresses component by component over their whole length", f.Pos(), 2, "", "a component (the IP family) is left out of the comparison: a report for the other address family counts for this local address", badSlice)
+			// a differing code at a compared position answers false
+			isCode := func(v ssa.Value) bool {
+				ci := isResultOfCall(v, 0, "(*github.com/multiformats/go-multiaddr.Component).Code", "(github.com/multiformats/go-multiaddr.Component).Code")
+				return ci != nil
+			}
+			diff := edgesWhere(f, eqEdge(isCode, isCode, false))
+			w, n := (&Cut{Fn: f, FromEdges: diff, Target: inSet(trueRets)}).Run(c)
+			r1.Check(len(diff) >= 1 && w == "", "hasConsistentTransport: a position with different protocol codes answers false", f.Pos(), n+1, "", "", w)
+		}
+	}
+
 	// ---- R2 ---------------------------------------------------------------
 	r2 := r.Rule("C17-R2", "E1", 7, "bookkeeping: entry stored with one add; overwrite/delete removes the previous value; only on open connections; wired to Disconnected")
 	connMap := mgrT + ".connObservedTWAddrs"
@@ -140,12 +200,42 @@ func checkC17(c *Ctx, r *Report) {
 				rmPrev := func(in ssa.Instruction) bool {
 					return isCallTo(in, rmK) && isPrev(callArgs(in.(ssa.CallInstruction))[3])
 				}
-				if len(hit) == 0 {
-					r2.Fail("recordObservationUnlocked: previous-entry branch", f.Pos(), "branch on the previous entry not found", "")
-				} else {
-					q := &Cut{Fn: f, FromEdges: hit, Target: inSet(updates), Sep: rmPrev}
-					r2.mustPass(f, "recordObservationUnlocked: overwriting an entry first removes the previous observation", q, len(hit))
+				_ = hit
+				// decision table over H: the connection has a previous report, E: it equals the new one
+				atomH := func(v ssa.Value) (bool, bool) { return isOK(v), true }
+				atomE := func(v ssa.Value) (bool, bool) {
+					ci := isResultOfCall(v, 0, "(github.com/multiformats/go-multiaddr.Multiaddr).Equal")
+					if ci == nil {
+						return false, false
+					}
+					a := callArgs(ci)
+					isPrevV := func(x ssa.Value) bool { e, ok := strip(x).(*ssa.Extract); return ok && e.Tuple == lk && e.Index == 0 }
+					return isPrevV(a[0]) || isPrevV(a[1]), true
 				}
+				isAdd := callPred(addK)
+				isUpd := inSet(updates)
+				tAdd, ok1 := boolTableFrom(f, lk.(ssa.Instruction), []atomPred{atomH, atomE}, isAdd)
+				tRm, ok2 := boolTableFrom(f, lk.(ssa.Instruction), []atomPred{atomH, atomE}, rmPrev)
+				tUpd, ok3 := boolTableFrom(f, lk.(ssa.Instruction), []atomPred{atomH, atomE}, isUpd)
+				bad := ""
+				for a := 0; a < 4; a++ {
+					h, e := a&1 != 0, a&2 != 0
+					switch {
+					case !h:
+						if !tAdd[a].all || !tUpd[a].all || tRm[a].some {
+							bad += "[no previous report] the report is not simply recorded and counted; "
+						}
+					case h && e:
+						if tAdd[a].some || tRm[a].some {
+							bad += "[same report again] the observer is counted (or withdrawn) again for the same connection; "
+						}
+					default:
+						if !tAdd[a].all || !tRm[a].all || !tUpd[a].all {
+							bad += "[changed report] the previous report is not withdrawn, or the new one not recorded and counted; "
+						}
+					}
+				}
+				r2.Check(ok1 && ok2 && ok3 && bad == "", "recordObservationUnlocked: per connection one report is counted: new → record+count; same again → nothing; changed → withdraw previous, record+count new (decision table)", f.Pos(), 12, "", "an observer is counted more often than it has open connections reporting the address (the address stays advertised after they close), or a withdrawn report stays counted", bad)
 			}
 		}
 	}
@@ -228,19 +318,10 @@ func checkC17(c *Ctx, r *Report) {
 			return call != nil && calleeKey(call) == "builtin.len" && derivesFrom(call.Call.Args[0], func(x ssa.Value) bool { f, _ := loadOfField(x); return f != nil && f.Name() == "ObservedBy" })
 		}, func(v ssa.Value) bool { return isParamVar(c, v, "minObservers") }, ordLT), nil)
 		capOK := constIntObj(c, oaP, "maxExternalThinWaistAddrsPerLocalAddr") == 3
+		capC := constIntObj(c, oaP, "maxExternalThinWaistAddrsPerLocalAddr")
 		for _, ret := range returnsOf(f) {
-			sl, ok := retVal(ret, 0).(*ssa.Slice)
-			bounded := false
-			if ok && sl.High != nil {
-				if call, isCall := sl.High.(*ssa.Call); isCall && calleeKey(call) == "builtin.min" {
-					for _, a := range call.Call.Args {
-						if n, isC := constInt(a); isC && n == 3 {
-							bounded = true
-						}
-					}
-				}
-			}
-			r4.Check(bounded && capOK, "getTopExternalAddrs: result bounded by min(len, maxExternalThinWaistAddrsPerLocalAddr==3)", instrPos(ret), 1, "", "more than three observed addresses per local address can be reported", "")
+			w, n := sliceBoundedAt(c, f, ret, ret.Results[0], capC)
+			r4.Check(w == "" && capOK, "getTopExternalAddrs: result bounded by maxExternalThinWaistAddrsPerLocalAddr (== 3)", instrPos(ret), n+1, "", "more than three observed addresses per local address can be reported", w)
 		}
 		// most-observed first: sorted before slicing
 		r4.Check(len(callsIn(f, "slices.SortFunc")) == 1, "getTopExternalAddrs: sorted before truncation", f.Pos(), 1, "", "", "")
